@@ -286,18 +286,48 @@ func c06Zone(tz string) string {
 // zones (resolved names) in which the probe found the local calendar date different from the UTC date
 var c06DateDiffers = map[string]bool{}
 
-func c06Worker(c *Ctx, tz string) *Worker {
+// c06EnvProfiles are process environments a signing tool finds itself in beside the zone: what package build systems,
+// CI runners and service managers export for every process they start.  The statement's "current time in UTC" does not
+// depend on any of it.  Values that are dates are resolved when the worker is started (a replay on another day is still
+// "a build whose sources are some months old").
+var c06EnvProfiles = map[string]func() []string{
+	// reproducible-builds conventions (SOURCE_DATE_EPOCH = date of the last source change, here about three months
+	// before the run), the C locale, and the usual CI / packaging markers
+	"reproducible-build": func() []string {
+		past := time.Now().Add(-91 * 24 * time.Hour)
+		return []string{"SOURCE_DATE_EPOCH=" + fmt.Sprint(past.Unix()), "FORCE_SOURCE_DATE=1", "ZERO_AR_DATE=1", "BUILD_DATE=" + past.UTC().Format(time.RFC3339),
+			"LC_ALL=C", "LANG=C", "CI=true", "DEB_BUILD_OPTIONS=nocheck reproducible=+all", "RPM_BUILD_ROOT=/nonexistent", "FAKETIME=" + past.UTC().Format("2006-01-02 15:04:05"), "NO_COLOR=1"}
+	},
+	// the same convention with the epoch itself (sources without a date)
+	"reproducible-build-epoch": func() []string {
+		return []string{"SOURCE_DATE_EPOCH=0", "LC_ALL=C.UTF-8", "CI=1"}
+	},
+	// a user session: locale and calendar settings, no build variables
+	"locale": func() []string {
+		return []string{"LANG=tr_TR.UTF-8", "LC_ALL=ja_JP.UTF-8", "LC_TIME=ar_SA.UTF-8", "LANGUAGE=de:fr"}
+	},
+}
+
+func c06Worker(c *Ctx, tz, env string) *Worker {
 	tz = c06Zone(tz)
-	if w, ok := c06Workers[tz]; ok {
+	wk := tz
+	if env != "" {
+		wk = tz + "|" + env
+	}
+	if w, ok := c06Workers[wk]; ok {
 		return w
 	}
-	w := c.NewWorker(4<<20, "TZ="+tz)
-	c06Workers[tz] = w
+	extra := []string{"TZ=" + tz}
+	if mk, ok := c06EnvProfiles[env]; ok {
+		extra = append(extra, mk()...)
+	}
+	w := c.NewWorker(4<<20, extra...)
+	c06Workers[wk] = w
 	if res := w.Do("tz.probe", map[string]string{}, 10*time.Second); res.Class == "ok" {
 		f := strings.Fields(res.Out)
 		if len(f) == 2 {
 			c06DateDiffers[tz] = f[1] == "true"
-			c.Note("zone "+tz, fmt.Sprintf("offset %ss from UTC; local calendar date differs from the UTC date during the run: %s", f[0], f[1]))
+			c.Note("zone "+wk, fmt.Sprintf("offset %ss from UTC; local calendar date differs from the UTC date during the run: %s", f[0], f[1]))
 		}
 	}
 	return w
@@ -308,9 +338,14 @@ func c06Eval(c *Ctx, cs Case) {
 	first := c06Upd{name: unhx(cs.S("name")), guid: unhx(cs.S("guid")), payload: unhx(cs.S("payload")), attrs: uint32(cs.I("attrs")), key: int(cs.I("key")), shape: int(cs.I("shape"))}
 	seq := append([]c06Upd{first}, c06ParseThen(cs.S("then"))...)
 	via := cs.S("via")
-	w := c06Worker(c, tz)
+	env := cs.S("env")
+	if _, ok := c06EnvProfiles[env]; env != "" && !ok {
+		c.Fail(Failure{Kind: "property", What: "unknown process-environment profile in the case", Case: cs, Go: env})
+		return
+	}
+	w := c06Worker(c, tz, env)
 	// a case of the date-differs zone is only what it says when the zone database gave the process that zone
-	c.Count(cs.Key(), tz != c06OtherDate || c06DateDiffers[c06Zone(tz)], fmt.Sprintf("varsign/%s/%s%s/payload%s", tz, cs.S("class"), map[bool]string{true: "/" + via}[via != ""], sizeClass(len(first.payload))))
+	c.Count(cs.Key(), tz != c06OtherDate || c06DateDiffers[c06Zone(tz)], fmt.Sprintf("varsign/%s%s/%s%s/payload%s", tz, map[bool]string{true: "/env:" + env}[env != ""], cs.S("class"), map[bool]string{true: "/" + via}[via != ""], sizeClass(len(first.payload))))
 	c.Sample(cs)
 	res := w.Do("var.sign", map[string]string{"verif": c.VerifDir, "key": fmt.Sprint(first.key), "shape": fmt.Sprint(first.shape), "name": hx(first.name), "guid": hx(first.guid),
 		"attrs": fmt.Sprint(first.attrs), "payload": hx(first.payload), "slow": fmt.Sprint(cs.I("slow")), "busy": fmt.Sprint(cs.I("busy")), "mutate": fmt.Sprint(cs.I("mutate")), "then": cs.S("then"), "via": via}, 20*time.Second)
@@ -336,12 +371,12 @@ func c06Eval(c *Ctx, cs Case) {
 				where = fmt.Sprintf("update %d of %d written one after the other by one caller: ", k+1, len(seq)) + where
 			}
 		}
-		c06CheckUpdate(c, cs, c06Zone(tz), where, u, strings.Fields(lines[k]))
+		c06CheckUpdate(c, cs, c06Zone(tz), env, where, u, strings.Fields(lines[k]))
 	}
 }
 
 // c06CheckUpdate holds the bytes of one signed update against the layout and binding of the property
-func c06CheckUpdate(c *Ctx, cs Case, tz, where string, u c06Upd, f []string) {
+func c06CheckUpdate(c *Ctx, cs Case, tz, env, where string, u c06Upd, f []string) {
 	name, guid, payload, attrs, keyIdx, shape := u.name, u.guid, u.payload, u.attrs, u.key, u.shape
 	fail := func(what, goObs, spec, matcher string) {
 		c.Fail(Failure{Kind: "property", Matcher: matcher, What: where + what, Case: cs, Go: clip(goObs), Spec: clip(spec)})
@@ -397,8 +432,13 @@ func c06CheckUpdate(c *Ctx, cs Case, tz, where string, u c06Upd, f []string) {
 	year := int(binary.LittleEndian.Uint16(tm))
 	stamp := time.Date(year, time.Month(tm[2]), int(tm[3]), int(tm[4]), int(tm[5]), int(tm[6]), 0, time.UTC).Unix()
 	if stamp < t0-1 || stamp > t1+1 {
-		fail("the timestamp is not the current time in UTC", fmt.Sprintf("%04d-%02d-%02d %02d:%02d:%02d under TZ=%s", year, tm[2], tm[3], tm[4], tm[5], tm[6], tz),
-			time.Unix(t0, 0).UTC().Format("2006-01-02 15:04:05")+" UTC", "c06.local_time")
+		under, matcher := "TZ="+tz, "c06.local_time"
+		if env != "" {
+			// not the zone alone: the process was started with the environment of the profile
+			under, matcher = under+" and the process environment of profile "+env, ""
+		}
+		fail("the timestamp is not the current time in UTC", fmt.Sprintf("%04d-%02d-%02d %02d:%02d:%02d under %s", year, tm[2], tm[3], tm[4], tm[5], tm[6], under),
+			time.Unix(t0, 0).UTC().Format("2006-01-02 15:04:05")+" UTC", matcher)
 	}
 	if !bytes.Equal(tm[7:], make([]byte, 9)) {
 		fail("pad / nanosecond / timezone / daylight fields of the timestamp are not zero", hx(tm), "", "")
@@ -578,15 +618,33 @@ func c06Gen(c *Ctx) {
 	// who produces the update: the caller of signature.SignEFIVariable, or the caller of Efivarfs.WriteSignedUpdate over a
 	// recording EFIVars backend / over EFIFS on an in-memory filesystem (what reached the store is then the update)
 	vias := []string{"", "update-backend", "", "update-file"}
+	// whose certificate signs: every shape of the pool in turn - self-signed ones (issuer = subject) and certificates
+	// ISSUED BY A CA (issuer and subject are different names, as a KEK / db certificate of a PKI), long and hand-encoded
+	// names, serials with the high bit set.  The SignerInfo must name the certificate by ITS ISSUER and serial: that is
+	// how the independent verifiers (and firmware) look the signer up.
+	nShapes := len(certShapes(c))
+	caIssued := 0
+	for _, sh := range certShapes(c) {
+		if sh.subject != nil {
+			caIssued++
+		}
+	}
+	c.Note("certificate_shapes", fmt.Sprintf("%d, of which %d issued by a CA (issuer differs from subject)", nShapes, caIssued))
+	// the environment the signing process is started with, beside TZ: inherited (two cases in five), or one of the
+	// profiles of c06EnvProfiles
+	envs := []string{"", "reproducible-build", "", "locale", "reproducible-build-epoch"}
 	i := 0
 	for _, tz := range tzs {
 		for n := 0; n < c.N(14, 1500) && c.NFailures() < 6; n++ {
 			v := names[(i+n)%len(names)]
 			p := pk[c.Rng.Intn(len(pk))]
 			cs := Case{"op": "varsign", "tz": tz, "class": p, "name": hx([]byte(v.name)), "guid": hx(v.guid), "attrs": int64(masks[c.Rng.Intn(len(masks))]),
-				"payload": hx(payloads[p]), "key": int64(c.Rng.Intn(2)), "shape": int64(c.Rng.Intn(9)), "mutate": int64(n % 2), "busy": int64([]int{0, 0, 0, 1, 2}[n%5])}
+				"payload": hx(payloads[p]), "key": int64(c.Rng.Intn(2)), "shape": int64(i % nShapes), "mutate": int64(n % 2), "busy": int64([]int{0, 0, 0, 1, 2}[n%5])}
 			if via := vias[c.Rng.Intn(len(vias))]; via != "" {
 				cs["via"] = via
+			}
+			if env := envs[i%len(envs)]; env != "" {
+				cs["env"] = env
 			}
 			if n%3 == 2 {
 				// a caller that signs two or three updates (other variables, other payloads - smaller, equal
@@ -595,7 +653,7 @@ func c06Gen(c *Ctx) {
 				class := p + "/then"
 				for k := 0; k < 1+c.Rng.Intn(2); k++ {
 					kv, kp := names[c.Rng.Intn(len(names))], pk[c.Rng.Intn(len(pk))]
-					then = append(then, c06Upd{name: []byte(kv.name), guid: kv.guid, attrs: masks[c.Rng.Intn(len(masks))], payload: payloads[kp], key: c.Rng.Intn(2), shape: c.Rng.Intn(9)})
+					then = append(then, c06Upd{name: []byte(kv.name), guid: kv.guid, attrs: masks[c.Rng.Intn(len(masks))], payload: payloads[kp], key: c.Rng.Intn(2), shape: c.Rng.Intn(nShapes)})
 					class += "-" + kp
 				}
 				cs["class"], cs["then"] = class, c06FormatThen(then)
@@ -609,13 +667,13 @@ func c06Gen(c *Ctx) {
 		v := names[n%len(names)]
 		p := pk[c.Rng.Intn(len(pk))]
 		c06Eval(c, Case{"op": "varsign", "tz": tzs[n%len(tzs)], "class": p + "/slow-signer", "name": hx([]byte(v.name)), "guid": hx(v.guid), "attrs": int64(masks[c.Rng.Intn(len(masks))]),
-			"payload": hx(payloads[p]), "key": int64(c.Rng.Intn(2)), "shape": int64(c.Rng.Intn(9)), "slow": int64(1100)})
+			"payload": hx(payloads[p]), "key": int64(c.Rng.Intn(2)), "shape": int64(c.Rng.Intn(nShapes)), "slow": int64(1100)})
 	}
 }
 
 func init() {
 	register("C06", &PropDef{
-		Rule:   "signed updates for the standard secure-boot variables and arbitrary ASCII names (incl. empty and long), the global / image-security / random GUIDs, attribute masks {0x27, 0x67 (APPEND_WRITE), 7, 3, 0, 0x40, 0x87, all ones} (with and without the time-based-authentication bit), payloads {empty database, SHA-256 list, certificate list, one byte, 300 raw bytes}, two RSA keys x 9 certificate shapes, each produced in worker processes started with TZ=UTC, Asia/Tokyo, America/St_Johns and Pacific/Auckland (DST zones of both hemispheres) and in a fixed-offset zone chosen by the UTC hour of the run so that its calendar DATE is not the UTC date while the check runs (UTC+14 from 11:00 UTC on, UTC-12 before; the worker reports the zone offset and whether the dates differ, and the full date and time of the timestamp are compared with the UTC clock bracket), plus updates signed through a crypto.Signer that takes 1.1 s so that the clock moves during the call; in every second case the caller's value object is changed after the call and before the result is marshalled, and in two of five the signer is busy (returns an error) for its first one or two calls and the caller asks again; every third case is a SEQUENCE of two or three updates (other variables, masks, keys, payloads smaller / equal / larger than the earlier ones) signed one after the other by one caller in one process, whose results are all held and marshalled only after the last one was signed - each of them must still be the update that was signed. Who produces the update: the caller of signature.SignEFIVariable (half of the cases) or the caller of the entry point Efivarfs.WriteSignedUpdate, over a caller-supplied EFIVars backend that records the variable definition and value handed to its WriteVar, or over EFIFS on an in-memory filesystem (the one file written: name, 4-byte mask, rest); then what reached the store is held to the statement, and the store must have received exactly one write of the variable the update was produced for with exactly the attributes it was produced for (the signature is verified over the attributes the caller gave, so the attributes written are the attributes signed). Layout is checked by an independent parser, the binding by encoding/asn1+crypto/rsa, go.mozilla.org/pkcs7 and the Lean Spec over the rebuilt buffer and over wrong buffers (terminated name, attributes before GUID, no timestamp, one more payload byte, each of the eight low attribute bits flipped, one bit of the GUID / name / timestamp seconds / payload flipped), the SignedData must carry no encapsulated content (detached); the output is reproduced byte for byte by the Lean model. Every case is non-trivial; distinct = distinct (zone, name, GUID, mask, payload, key, shape).",
+		Rule:   "signed updates for the standard secure-boot variables and arbitrary ASCII names (incl. empty and long), the global / image-security / random GUIDs, attribute masks {0x27, 0x67 (APPEND_WRITE), 7, 3, 0, 0x40, 0x87, all ones} (with and without the time-based-authentication bit), payloads {empty database, SHA-256 list, certificate list, one byte, 300 raw bytes}, two RSA keys x every certificate shape of the pool in turn (16: self-signed ones and certificates ISSUED BY A CA, whose issuer and subject are different names - the SignerInfo must name the signing certificate by its issuer and serial, which is how the independent verifiers look the signer up -, long, multi-valued and hand-encoded names, serials with the high bit set / leading zero / 20 octets, certificates signed with SHA-384 / SHA-512), each produced in worker processes started with TZ=UTC, Asia/Tokyo, America/St_Johns and Pacific/Auckland (DST zones of both hemispheres) and in a fixed-offset zone chosen by the UTC hour of the run so that its calendar DATE is not the UTC date while the check runs (UTC+14 from 11:00 UTC on, UTC-12 before; the worker reports the zone offset and whether the dates differ, and the full date and time of the timestamp are compared with the UTC clock bracket), the worker process is started either with the inherited environment (two cases in five) or with one of three environment profiles beside TZ - what reproducible-build wrappers, package builds and CI runners export (SOURCE_DATE_EPOCH about three months in the past resp. 0, FORCE_SOURCE_DATE, ZERO_AR_DATE, BUILD_DATE, FAKETIME, LC_ALL=C, CI, DEB_BUILD_OPTIONS, ...) or a user session's locale variables (LANG, LC_ALL, LC_TIME, LANGUAGE): the timestamp must be the current UTC time of the call whatever the process environment says; plus updates signed through a crypto.Signer that takes 1.1 s so that the clock moves during the call; in every second case the caller's value object is changed after the call and before the result is marshalled, and in two of five the signer is busy (returns an error) for its first one or two calls and the caller asks again; every third case is a SEQUENCE of two or three updates (other variables, masks, keys, payloads smaller / equal / larger than the earlier ones) signed one after the other by one caller in one process, whose results are all held and marshalled only after the last one was signed - each of them must still be the update that was signed. Who produces the update: the caller of signature.SignEFIVariable (half of the cases) or the caller of the entry point Efivarfs.WriteSignedUpdate, over a caller-supplied EFIVars backend that records the variable definition and value handed to its WriteVar, or over EFIFS on an in-memory filesystem (the one file written: name, 4-byte mask, rest); then what reached the store is held to the statement, and the store must have received exactly one write of the variable the update was produced for with exactly the attributes it was produced for (the signature is verified over the attributes the caller gave, so the attributes written are the attributes signed). Layout is checked by an independent parser, the binding by encoding/asn1+crypto/rsa, go.mozilla.org/pkcs7 and the Lean Spec over the rebuilt buffer and over wrong buffers (terminated name, attributes before GUID, no timestamp, one more payload byte, each of the eight low attribute bits flipped, one bit of the GUID / name / timestamp seconds / payload flipped), the SignedData must carry no encapsulated content (detached); the output is reproduced byte for byte by the Lean model. Every case is non-trivial; distinct = distinct (zone, environment profile, name, GUID, mask, payload, key, shape).",
 		Assume: []string{"variable names are ASCII (the property's domain); time is bracketed by the worker around the call (±1 s)"},
 		Eval:   c06Eval, Gen: c06Gen,
 	})
